@@ -218,9 +218,21 @@ POOLS = {1, 17}
 ARG_MAX = 56
 
 
-def classify(kind, detail, src):
+CONVS = {3, 4, 67}
+
+
+def classify(kind, detail, src, opts):
     """stable key of the known finding that explains this problem, or None. `src` = fbwalk dict of the source model."""
     sg = src["subgraphs"][0]
+    if kind.endswith("-quantisation") and "--force-symmetric-int-weights" in opts:
+        mm = re.search(r" ([0-9a-f]+)$", detail)
+        if mm:
+            name = bytes.fromhex(mm.group(1)).decode("utf-8", "replace")
+            for op in sg["operators"]:
+                if src["operator_codes"][op["opcode_index"]]["builtin"] in CONVS and len(op["inputs"]) > 1 and op["inputs"][1] >= 0:
+                    w = sg["tensors"][op["inputs"][1]]
+                    if w["name"] == name and w["quant"] and any(z != 0 for z in w["quant"]["zero_point"]):
+                        return "quantisation@force-symmetric-int-weights-before-placement"
     m = re.match(r"operator (\d+) \(builtin (\d+)\)", detail)
     builtin = int(m.group(2)) if m else None
     if kind == "version" and builtin is not None:
@@ -332,7 +344,7 @@ def main():
             src = fbwalk.parse(o["src_model"])
             groups = {}
             for kind, detail in probs:
-                groups.setdefault(classify(kind, detail, src), []).append((kind, detail))
+                groups.setdefault(classify(kind, detail, src, o["opts"]), []).append((kind, detail))
             for key, ps in groups.items():
                 if key is not None:
                     ck.count("known_" + key)
